@@ -79,7 +79,10 @@ def media(c):
     attrs = []
     r = rng.random()
     if r < 0.8:
-        attrs.append('src="%s"' % attr_escape(c.target()))
+        t = attr_escape(c.target())
+        if rng.random() < c.hostile:
+            t += rng.choice(HOSTILE_REFS)      # a control character in the link itself (shown when there is no alt text)
+        attrs.append('src="%s"' % t)
     if rng.random() < 0.6:
         key = "title" if tag == "iframe" else "alt"
         val = c.words(2)
